@@ -182,7 +182,10 @@ func (b *builder) add(s Step) bool {
 // span on every tracer handed out (they must arrive when an SDK was installed).
 func (b *builder) finish() []Step {
 	for _, i := range b.syncs {
-		b.add(Step{Op: opRecord, Arg: i})
+		// four consecutive measurement ids: every value class of recVal (5, 0, negative) occurs on every instrument
+		for j := 0; j < 4; j++ {
+			b.add(Step{Op: opRecord, Arg: i})
+		}
 	}
 	for _, t := range b.tracers {
 		b.add(Step{Op: opSpan, Arg: t})
